@@ -62,7 +62,7 @@ def _validate(pid):
         "jsonschema.Draft202012Validator(s).validate(e)"
     )
     p = subprocess.run(
-        [vt, "-c", code, os.path.join(here, "schemas", "EVIDENCE.schema.json"), os.path.join(here, "evidence", pid + ".json")],
+        [vt, "-c", code, os.path.join(here, "schemas", "EVIDENCE.schema.json"), os.path.join(os.environ.get("VERIF_EVIDENCE_DIR") or os.path.join(here, "evidence"), pid + ".json")],
         capture_output=True,
         text=True,
     )
